@@ -155,8 +155,14 @@ would get removed without actually deleting that already.
     recipes.parse(defines)
 
     if args.mode == 'attic':
-        delPaths = sorted(d for d in BobState().getAtticDirectories()
-            if os.path.exists(d) and (args.force or checkAtticSource(d, args.verbose)))
+        # An attic directory may hold nested SCMs that were moved with it. It
+        # can only be deleted if all of them are expendable too.
+        atticDirs = [ d for d in BobState().getAtticDirectories() if os.path.exists(d) ]
+        expendable = { d : (args.force or checkAtticSource(d, args.verbose)) for d in atticDirs }
+        def nestedExpendable(d):
+            prefix = os.path.normpath(d) + os.sep
+            return all(expendable[n] for n in atticDirs if os.path.normpath(n).startswith(prefix))
+        delPaths = sorted(d for d in atticDirs if expendable[d] and nestedExpendable(d))
     elif args.mode == 'shared':
         delPaths = []
         share = getShare(recipes.getShareConfig())
